@@ -12,6 +12,8 @@
 #include <cmath>
 #include <limits>
 #include <algorithm>
+#include <sstream>
+#include <cstdlib>
 using namespace datasketches;
 using vh::I; using vh::Line; using vh::Out;
 
@@ -116,6 +118,51 @@ template<typename K> static void merge_op(Reg& a, Reg& b, bool rvalue) {
   if (rvalue) x.merge(std::move(y)); else x.merge(y);
 }
 
+// ---------- serialization (kinds 0 and 1: arithmetic items through the default serde) ----------
+template<typename K> static void ser_op(Reg& reg, Out& o) {
+  typedef typename K::sk_t S;
+  S& s = *Sel<K>::p(reg);
+  auto v = s.serialize();
+  for (uint8_t b : v) o.R((I)b);
+  std::ostringstream os(std::ios::binary); s.serialize(os); std::string st = os.str();
+  o.F((st.size() == v.size() && memcmp(st.data(), v.data(), v.size()) == 0) ? 1 : 0);   // bytes form = stream form
+  o.F((I)s.get_serialized_size_bytes()); o.F((I)v.size());
+  auto h = s.serialize(5);                                                               // header form
+  bool hok = h.size() == v.size() + 5;
+  for (size_t i = 0; hok && i < 5; ++i) hok = h[i] == 0;
+  for (size_t i = 0; hok && i < v.size(); ++i) hok = h[5 + i] == v[i];
+  o.F(hok ? 1 : 0);
+  std::string two = st + std::string("\x5a\x5a\x5a", 3);                               // the stream reader stops after the image
+  std::istringstream is(two, std::ios::binary);
+  S r = S::deserialize(is);
+  o.F(((long)is.tellg() == (long)st.size() && r.get_n() == s.get_n()) ? 1 : 0);
+}
+
+// both readers on the same bytes; the byte reader gets a heap block of exactly that size (ASan sees any overrun)
+// result: 1 both accept, -1 both reject, 2 only the byte reader accepts, 3 only the stream reader accepts
+template<typename K> static I deser_both(Reg& g, const std::vector<uint8_t>& v, Out& o) {
+  typedef typename K::sk_t S;
+  std::unique_ptr<S> a, b; long consumed = -1;
+  uint8_t* buf = (uint8_t*)malloc(v.size() ? v.size() : 1);
+  if (v.size()) memcpy(buf, v.data(), v.size());
+  try { a.reset(new S(S::deserialize(buf, v.size()))); } catch (const std::exception&) {}
+  free(buf);
+  {
+    std::string st((const char*)v.data(), v.size());
+    std::istringstream is(st, std::ios::binary);
+    try { b.reset(new S(S::deserialize(is))); consumed = (long)is.tellg(); } catch (const std::exception&) {}
+  }
+  if (a && b) {
+    auto x = a->serialize(); auto y = b->serialize();
+    o.F((x.size() == y.size() && memcmp(x.data(), y.data(), x.size()) == 0 && a->get_n() == b->get_n()) ? 1 : 0);
+    o.F((I)consumed);
+    Sel<K>::p(g) = std::move(a);
+    return 1;
+  }
+  if (!a && !b) return -1;
+  return a ? 2 : 3;
+}
+
 static void handler(const Line& t, Out& o) {
   vh::install_source(o);
   if (vh::source_op(t, o)) return;
@@ -172,6 +219,24 @@ static void handler(const Line& t, Out& o) {
       regs.erase((long)t.at(2));
     }
     o.R(1); break; }
+  case 20: { // serialize r: R = image bytes
+    Reg& g = get(t.at(1));
+    if (g.kind == 0) ser_op<K0>(g, o); else if (g.kind == 1) ser_op<K1>(g, o); else throw std::invalid_argument("codec: kind");
+    break; }
+  case 21: { // r := deserialize(serialize(r2)), both readers
+    Reg& b = get(t.at(2)); Reg g; g.kind = b.kind; I res;
+    if (b.kind == 0) { auto v = b.s0->serialize(); res = deser_both<K0>(g, std::vector<uint8_t>(v.begin(), v.end()), o); }
+    else if (b.kind == 1) { auto v = b.s1->serialize(); res = deser_both<K1>(g, std::vector<uint8_t>(v.begin(), v.end()), o); }
+    else throw std::invalid_argument("codec: kind");
+    if (res == 1) regs[(long)t.at(1)] = std::move(g);
+    o.R(res); break; }
+  case 22: { // r := deserialize(bytes) as kind, both readers
+    int kind = (int)t.at(2); Reg g; g.kind = kind; I res;
+    std::vector<uint8_t> v; for (size_t i = 3; i < t.size(); ++i) v.push_back((uint8_t)t[i]);
+    if (kind == 0) res = deser_both<K0>(g, v, o); else if (kind == 1) res = deser_both<K1>(g, v, o);
+    else throw std::invalid_argument("codec: kind");
+    if (res == 1) regs[(long)t.at(1)] = std::move(g);
+    o.R(res); break; }
   case 97: o.R(1); o.F((I)vh::source().scripted.size()); break;
   default: {
     Reg& g = get(t.at(1));
